@@ -123,7 +123,7 @@ fn conditional_trees() {
 
 // ---------------------------------------------------------------- (2) \expandafter: simple == optimised == TeX
 #[derive(Clone, Copy, PartialEq, Debug)]
-enum T { Xa, A, B, C, L(char) }
+enum T { Xa, A, B, C, G, L(char) }
 fn body(t: T) -> Option<Vec<T>> { match t { T::A => Some(vec![T::B, T::L('y')]), T::B => Some(vec![T::C, T::L('z')]), T::C => Some(vec![T::L('w')]), _ => None } }
 /// expand the first token of the list once (TeX.2021.366-368: \expandafter = get t, get next, expand next ONCE, put t back)
 fn expand_once(l: &mut Vec<T>) {
@@ -135,6 +135,22 @@ fn expand_once(l: &mut Vec<T>) {
             let mut rest: Vec<T> = l[2..].to_vec();
             expand_once(&mut rest);
             *l = std::iter::once(t1).chain(rest.into_iter()).collect();
+        }
+        // \g#1y{(#1)}: a delimited parameter grabs tokens WITHOUT expanding them - this is what makes the moment at which
+        // \expandafter expands a token observable in the final output
+        T::G => {
+            let rest: Vec<T> = l[1..].to_vec();
+            match rest.iter().position(|t| *t == T::L('y')) {
+                Some(k) => {
+                    let mut n: Vec<T> = vec![T::L('(')];
+                    n.extend(rest[..k].iter().copied());
+                    n.push(T::L(')'));
+                    n.extend(rest[k + 1..].iter().copied());
+                    *l = n;
+                }
+                // no delimiter left: TeX reports a runaway argument - such strings are not compared
+                None => { *l = vec![T::L('!')]; }
+            }
         }
         t => if let Some(b) = body(t) { let rest: Vec<T> = l[1..].to_vec(); *l = b.into_iter().chain(rest.into_iter()).collect(); }
     }
@@ -152,8 +168,8 @@ fn full(mut l: Vec<T>) -> String {
 #[test]
 fn expandafter_equivalence() {
     std::panic::set_hook(Box::new(|_| {}));
-    let alphabet = [(T::Xa, "\\xa "), (T::A, "\\a "), (T::B, "\\b "), (T::C, "\\c "), (T::L('x'), "x")];
-    let prelude = "\\def\\a{\\b y}\\def\\b{\\c z}\\def\\c{w}";
+    let alphabet = [(T::Xa, "\\xa "), (T::A, "\\a "), (T::B, "\\b "), (T::C, "\\c "), (T::L('x'), "x"), (T::G, "\\g ")];
+    let prelude = "\\def\\a{\\b y}\\def\\b{\\c z}\\def\\c{w}\\def\\g#1y{(#1)}";
     let mut n = 0u64;
     for len in 1..=6usize {
         let mut idx = vec![0usize; len];
@@ -161,10 +177,12 @@ fn expandafter_equivalence() {
             let mut toks: Vec<T> = idx.iter().map(|&i| alphabet[i].0).collect();
             let mut body_src: String = idx.iter().map(|&i| alphabet[i].1).collect();
             // terminate every chain so that \expandafter never runs off the end of the input
-            toks.extend([T::A, T::B, T::L('x')]);
-            body_src.push_str("\\a \\b x");
+            // (and every \g finds its delimiter)
+            toks.extend([T::A, T::B, T::L('x'), T::L('y')]);
+            body_src.push_str("\\a \\b xy");
             let src = format!("{prelude}{body_src}").replace("\\\\", "\\");
             let want = full(toks);
+            if want.contains('!') { let mut p = 0; loop { if p == len { break; } idx[p] += 1; if idx[p] < alphabet.len() { break; } idx[p] = 0; p += 1; } if p == len { break; } continue; }
             n += 1;
             for optimized in [false, true] {
                 if !same(&src, &want, optimized, optimized) {
